@@ -285,3 +285,20 @@ Definition c_init (sc : list (aop T * bool)) : rcstate := mkRC (r_init (map fst 
 
 End ReorderContexts.
 Arguments rcstate : clear implicits.
+
+(* ---- served time-outs (ghost) ----
+   m_mark = how many inputs had been accepted when the timer last expired (ATimerFire enabled). The time-out goroutine of the
+   current code WAITS for flushMu (Lock, the PFlush step is disabled while the lock is held, never skipped), so once that expiry
+   has been received and served, all those inputs have been handed out (Proofs: expired_batch_flushed). *)
+Section ReorderMarks.
+Context {T R : Type}.
+Variable fetch : list T -> list R.
+Record rmstate := mkRM { rm : rstate T R; m_mark : nat }.
+Definition m_step (p : rparams) (a : action) (ms : rmstate) : rmstate :=
+  let s := rm ms in
+  mkRM (step fetch p a s)
+       (match a, armed (bt s) with ATimerFire, Some _ => length (added s) | _, _ => m_mark ms end).
+Definition m_run (p : rparams) (acts : list action) (ms : rmstate) : rmstate := fold_left (fun ms a => m_step p a ms) acts ms.
+Definition m_init (sc : list (aop T)) : rmstate := mkRM (r_init sc) 0.
+End ReorderMarks.
+Arguments rmstate : clear implicits.
